@@ -252,6 +252,20 @@ def r1_guard_on_every_cycle(ctx):
                         ctx.ok("depth-limited|%s" % a, where, "recursion on a budget that is decremented on every call and stops at zero (at most %s levels)" % nb["L"])
                         continue
                 if a == b and a in DATA_DEPTH:
+                    # the recursion goes *down*: what it is called on again is an element of what it was called on (an item
+                    # obtained by iterating the parameter), never the parameter itself - or the depth of the data bounds nothing
+                    pf = prog.fns[a]
+                    flat = []
+                    for g in [pf] + list(prog.closures_of(a)):
+                        for c in g.calls():
+                            if c.callee == a and c.args:
+                                t = sh(ne(g.deep(c.args[0], 12)))
+                                if not re.search(r"next\(|index\(|\[", t):
+                                    flat.append((g, c, t))
+                    if flat:
+                        g, c, t = flat[0]
+                        ctx.bad("data-recursion-does-not-descend|%s" % a, g.where(c.block), "%s calls itself on `%s`, which is not an element of the value it was called on: the recursion never reaches a leaf and overflows the native stack on the first nested array it meets, whatever the nesting limit" % (a.split("::")[-1], t[:50]))
+                        continue
                     if nb["P"] is not None and nb["L"] is not None and all(ok for _f, _b, _k, ok, _w in nb["sites"]) and len(nb["sites"]) >= 3:
                         ctx.ok("data-depth|%s" % a, where, "%s: at most %d levels (every place where nesting grows is checked against the limit - R3; the levels are priced into the stack budget - R2)" % (DATA_DEPTH[a], nb["L"]))
                     else:
